@@ -17,6 +17,9 @@ GENERATED_OBLIGATIONS = [
 def streams(tier, rng):
     from vp import Stream
     runs = ["runs=test,bench", "runs=bench", "runs=test", "runs=bench,bench,test", "runs=test,test,bench,bench"]
+    # user code that prints to stdout on every thread of a threads=[2,3] benchmark (the run must finish), and
+    # user code that panics on a pooled thread (must end as a reported panic, exit code 101, not a signal)
+    runs += ["runs=bench noisy=1", "runs=test noisy=1", "runs=test,bench noisy=1", "runs=bench boom=1", "runs=test boom=1"]
     if tier != "quick":
         runs += ["runs=" + ",".join(rng.choice(["test", "bench"]) for _ in range(rng.randrange(1, 9))) for _ in range(40)]
     e2e = Stream("e2e-no-leaked-workers", "c07leak", runs, crate="hx-pool-e2e",
